@@ -1,4 +1,6 @@
 """C02 - Extrema are raw-signal extremes of narrowband half-waves."""
+import math
+
 import numpy as np
 from hypothesis import strategies as st
 
@@ -47,6 +49,12 @@ def strategy_(draw, tier):
         n2 = draw(st.integers(max(8, fl // 5), max(9, fl + 4)))
         case['sig'] = draw(gen.st_signal(band, n2, tie_rich=False))
         case['boundary'] = 0
+    if case['pad'] and draw(st.integers(0, 7)) == 0:
+        # a boundary at least as wide as the padding, on a recording whose band-limited part fades in and out on a slow drift:
+        # half-waves that run into the edge are longer than the boundary, so what the padding closes matters far inside
+        case['boundary'] = int(math.ceil(gen.filt_len_of(band, case['fk']) / 2)) + draw(st.integers(0, 25))
+        case['drift'] = draw(st.sampled_from([0.6, 1.3, 2.5]))
+        case['dtype'] = 'float64'
     if draw(st.integers(0, 7)) == 0:
         # half-waves that touch the edge of the recording: a rhythm riding on a baseline, a kernel so short that its response has
         # no further zero-crossing inside the padding, nothing dropped at the boundary
@@ -83,6 +91,9 @@ def check(case, rec):
     x = cast(gen.render_signal(case['sig']), case.get('dtype', 'float64'))
     if case.get('baseline'):
         x = x + case['baseline'] * float(np.max(np.abs(x)) or 1.0)
+    if case.get('drift'):
+        tt = np.arange(len(x)) / max(1, len(x) - 1)
+        x = x * np.sin(np.pi * tt) ** 2 + case['drift'] * float(np.max(np.abs(x)) or 1.0) * np.sin(2 * np.pi * 0.8 * tt + 0.4)
     n = len(x)
     fs, fr, fk, bnd, first, pad = case['fs'], tuple(case['f_range']), case['fk'], case['boundary'], case['first'], case['pad']
     # reference first: decides the domain
